@@ -3,7 +3,9 @@ package rest
 // C15 — generated families on top of zz_verif_c15_config_test.go:
 //   Seq  : rapid sequences over 2–3 databases with any number of crashes (also inside a recovery load)
 //          and operations issued by a live node that has not loaded since the crash;
-//   Race : two live nodes whose storage calls are interleaved one by one by the generator.
+//   Race : two live nodes whose storage calls are interleaved one by one by the generator;
+//   LoadRace : a load on one node with batches of COMPLETED changes of another node (incl. a collection
+//          handed from one database to another) placed between the load's individual storage calls.
 
 import (
 	"fmt"
@@ -834,4 +836,263 @@ func vfC15RegressReport(sig string, still bool, what string) {
 	case !still:
 		kit.Note("C15", "regress: %s no longer fails", sig)
 	}
+}
+
+// ---------------------------------------------------------------------------------------------
+// a load on one node with COMPLETED changes of another node in between its storage calls
+
+// vfC15Snapshot: the acknowledged state of every database (nil = absent); ok=false when some change
+// had an unknown outcome (the state is then not definite).
+func vfC15Snapshot(w *vfC15World) (st []*vfC15Cfg, ok bool) {
+	st = make([]*vfC15Cfg, len(w.model))
+	for i, d := range w.model {
+		c, def := d.definite()
+		if !def {
+			return nil, false
+		}
+		st[i] = c
+	}
+	return st, true
+}
+
+func vfC15HasColl(colls []string, c string) bool {
+	for _, x := range colls {
+		if x == c {
+			return true
+		}
+	}
+	return false
+}
+
+// vfC15GenMove draws two operations that hand one collection from a database that owns it to another
+// database: X releases c (update to a set without c, or delete), then Y takes c (insert or update to a
+// set with c). ok=false when no database owns anything or the menu has no fitting sets.
+func vfC15GenMove(rt *rapid.T, w *vfC15World, st []*vfC15Cfg, payload int) (ops []vfC15Op, ok bool) {
+	var owners []int
+	for i, c := range st {
+		if c != nil {
+			owners = append(owners, i)
+		}
+	}
+	if len(owners) == 0 || len(st) < 2 {
+		return nil, false
+	}
+	x := rapid.SampledFrom(owners).Draw(rt, "moveFrom")
+	c := rapid.SampledFrom(st[x].colls).Draw(rt, "moveColl")
+	var without, with []int
+	for s := range w.menu {
+		if vfC15HasColl(vfC15SetColls(w.menu[s]), c) {
+			with = append(with, s)
+		} else {
+			without = append(without, s)
+		}
+	}
+	if len(with) == 0 || len(without) == 0 {
+		return nil, false
+	}
+	rel := rapid.IntRange(0, len(without)).Draw(rt, "releaseTo") // == len(without): delete X
+	if rel == len(without) {
+		ops = append(ops, vfC15Op{kind: vfC15Delete, db: x})
+	} else {
+		ops = append(ops, vfC15Op{kind: vfC15Update, db: x, set: without[rel], payload: payload})
+	}
+	y := rapid.IntRange(0, len(st)-2).Draw(rt, "moveTo")
+	if y >= x {
+		y++
+	}
+	kind := vfC15Update
+	if st[y] == nil {
+		kind = vfC15Insert
+	}
+	ops = append(ops, vfC15Op{kind: kind, db: y, set: rapid.SampledFrom(with).Draw(rt, "takeSet"), payload: payload + 1})
+	return ops, true
+}
+
+// TestVerif_C15_LoadRace: node A runs GetDatabaseConfigs; before generated storage calls of that load
+// (registry Get, config document Gets, the polls and roll-back writes that follow a mismatch) node B
+// executes 1-3 generated create/update/delete operations from start to finish (acknowledged or
+// rejected). Whenever A reads the store, it is therefore in a marker-free acknowledged state; the
+// states A can possibly have read are the one at the start of the load and the one after each batch.
+//
+// Oracle (statement: a loading node sees for each database the complete previous or the complete new
+// configuration with exactly the version the registry records for it, never a mixture; no two databases
+// own one collection): a load that RETURNS must return, as a whole set, one of those states — every
+// database of that state and no other, each configuration deep-equal (incl. version) to what that
+// state had — and no collection twice. That is what the unchanged tree guarantees: GetDatabaseConfigs
+// reads the registry once per attempt and accepts a config document only at exactly the version that
+// registry snapshot records; a newer document fails the load (ErrConfigVersionMismatch), an older or
+// missing one makes it wait, try a roll-back (refused by the registry CAS, because the registry moved)
+// and re-read the registry. A load that fails is fine. The follow-up load without interference must show
+// exactly the final acknowledged state at the versions of the raw registry (w.load), and every database
+// can still be created, updated and deleted (w.probes).
+//
+// The loader's configRetryTimeout is 1 ms: whenever it waits, the store is in a completed state and
+// the wait cannot be satisfied by anything but a further complete batch of B, which changes nothing in
+// the reasoning above (expiry only leads to a roll-back attempt with a stale registry CAS). The number
+// of polls inside such a wait depends on the clock, so the position of a SECOND batch is not
+// replay-stable; the oracle does not depend on where batches land.
+func TestVerif_C15_LoadRace(t *testing.T) {
+	rec := kit.New("C15", "LoadRace")
+	defer rec.Flush()
+	ctx := base.TestCtx(t)
+	rapid.Check(t, func(rt *rapid.T) {
+		nDB := rapid.IntRange(2, 3).Draw(rt, "dbs")
+		w, err := vfC15NewWorld(rt, "LoadRace", ctx, nDB, vfC15MenuFull)
+		if err != nil {
+			rt.Fatalf("harness: %v", err)
+		}
+		defer w.Close()
+		kit.Guard(rt, "C15", "LoadRace", w.render, func() {
+			writer := w.NewNode()
+			for s, n := 0, rapid.IntRange(2, 6).Draw(rt, "setupOps"); s < n; s++ {
+				w.step(writer, vfC15GenOp(rt, w, s+1), "")
+			}
+			w.load(writer, "before the load race")
+			start, ok := vfC15Snapshot(w)
+			if !ok {
+				rt.Fatalf("harness: set-up left an indefinite model: %s", w.describeModel())
+			}
+			live := 0
+			for _, c := range start {
+				if c != nil {
+					live++
+				}
+			}
+			// injection points: call indices of the load (1 = its first registry read, which is not "inside")
+			first := rapid.IntRange(2, 2+live).Draw(rt, "point") // an undisturbed load issues 2+live calls: registry, legacy key, one per database
+			batches := map[int]int{first: rapid.IntRange(1, 3).Draw(rt, "batch")}
+			if rapid.IntRange(0, 3).Draw(rt, "secondPoint") == 0 {
+				batches[first+rapid.IntRange(1, 5).Draw(rt, "gap")] = rapid.IntRange(1, 2).Draw(rt, "batch2")
+			}
+			visible := [][]*vfC15Cfg{start}
+			loader := w.NewNode()
+			calls, ran, acked, indefinite, payload := 0, 0, 0, false, 500
+			var callLog []string
+			loader.conn.gate = func(call string) {
+				calls++
+				n := batches[calls]
+				if n > 0 && !indefinite {
+					ran++
+					w.logf("n%d.Load: before call %d (%s) [%s]", loader.id, calls, call, strings.Join(callLog, ","))
+					cur := visible[len(visible)-1]
+					var ops []vfC15Op
+					if rapid.IntRange(0, 2).Draw(rt, "move") > 0 {
+						if mv, ok := vfC15GenMove(rt, w, cur, payload); ok {
+							ops = mv
+							if n < 2 {
+								n = 2
+							}
+						}
+					}
+					for k := 0; k < n; k++ {
+						payload += 10
+						var op vfC15Op
+						if k < len(ops) {
+							op = ops[k]
+						} else {
+							op = vfC15GenOp(rt, w, payload)
+						}
+						if res := w.step(writer, op, "@load"); res.outcome == vfC15Ack {
+							acked++
+						}
+					}
+					st, ok := vfC15Snapshot(w)
+					if !ok {
+						indefinite = true
+					} else {
+						visible = append(visible, st)
+					}
+				}
+				callLog = append(callLog, call)
+			}
+			loader.conn.arm(-1)
+			seen, bad, lerr := w.observe(loader)
+			loader.conn.gate = nil
+			if indefinite {
+				// an operation of B ended with an unknown outcome although nobody interfered with it
+				rec.Inconclusive()
+				kit.InconclusiveLine("C15", "loadrace: an operation of the writing node failed with unknown outcome: %s", w.render())
+				rt.Skip("inconclusive")
+			}
+			final := visible[len(visible)-1]
+			changed, moved := 0, false
+			for i := range start {
+				if !vfC15Same(start[i], final[i]) {
+					changed++
+				}
+				if start[i] == nil {
+					continue
+				}
+				for j := range final {
+					if j != i && final[j] != nil && vfC15Overlap(start[i].colls, final[j].colls) != "" {
+						moved = true
+					}
+				}
+			}
+			classes := []string{fmt.Sprintf("dbs=%d", nDB), fmt.Sprintf("batches_run_inside_load=%d", ran), fmt.Sprintf("databases_changed_during_load=%d", changed)}
+			if ran > 0 {
+				classes = append(classes, "interference_inside_load", fmt.Sprintf("acked_changes_inside_load=%d", min(acked, 4)))
+			} else {
+				classes = append(classes, "load_finished_before_injection_point")
+			}
+			if moved {
+				classes = append(classes, "collection_moved_between_databases_during_load")
+			}
+			stateText := func(st []*vfC15Cfg) string {
+				m := map[string]*vfC15Cfg{}
+				for i, name := range w.dbNames {
+					m[name] = st[i]
+				}
+				return "[" + w.renderSeen(m) + "]"
+			}
+			if lerr != nil {
+				w.logf("n%d.Load(raced, %d calls)=error(%.100v)", loader.id, calls, lerr)
+				classes = append(classes, "raced_load_failed")
+				if ran == 0 {
+					w.violation("a load nobody interfered with failed: %v", lerr)
+				}
+			} else {
+				w.logf("n%d.Load(raced, %d calls)=[%s]", loader.id, calls, w.renderSeen(seen))
+				classes = append(classes, "raced_load_returned")
+				if bad != "" {
+					w.violation("load raced by completed changes: %s", bad)
+				}
+				if msg := w.loadedOwnership("load raced by completed changes of another node", seen); msg != "" {
+					w.violation("%s", msg)
+				}
+				match := -1
+				for vi, st := range visible {
+					same := true
+					for i, name := range w.dbNames {
+						c := seen[name]
+						same = same && vfC15Same(st[i], c) && (c == nil || c.version == st[i].version)
+					}
+					if same {
+						match = vi
+					}
+				}
+				if match < 0 {
+					var vs []string
+					for _, st := range visible {
+						vs = append(vs, stateText(st))
+					}
+					w.violation("the load returned [%s]: a set of configurations that never existed — the acknowledged states during the load were, in order, %s (a database is shown at a version the registry did not record together with the others)", w.renderSeen(seen), strings.Join(vs, " then "))
+				}
+				switch {
+				case changed == 0:
+					classes = append(classes, "returned_state=unchanged")
+				case match == 0:
+					classes = append(classes, "returned_state=before_the_changes")
+				case match == len(visible)-1:
+					classes = append(classes, "returned_state=after_the_changes")
+				default:
+					classes = append(classes, "returned_state=between_batches")
+				}
+			}
+			// without interference: exactly the final acknowledged state, at the registry's versions
+			w.load(loader, "after the load race")
+			w.probes(w.NewNode(), 900)
+			vfC15FlushWorld(w, rec, ran > 0 && acked > 0, classes...)
+		})
+	})
 }
